@@ -192,6 +192,41 @@ def text_value_checks(run) -> None:
                 run.violation(f"text-values:published:{kind}", f"t_values should be the declared sequence {texts}, found {fctx.get('t_values')!r}; {node}", {"node": node})
 
 
+def shadowing_checks(run) -> None:
+    """FEATURE INTERACTION: a sweep variable that has the NAME of a parameter of the wrapped processor which no expression
+    computes, while the node gives that parameter a value.  Documented merge: computed-by-expression > node parameters >
+    defaults -- the variable feeds the expressions (a = 10 * b over b = 1, 2, 3) and the node's own b = 0.5 is what the
+    processor receives for b."""
+    from ..seams import run_nodes
+
+    sw = {"parameters": {"a": "10.0 * b"}, "variables": {"b": {"values": [1.0, 2.0, 3.0]}}}
+    cases = {
+        "op": ([{"processor": "FloatValueDataSource", "parameters": {"value": 2.0}},
+                {"processor": "VAffineOperation", "parameters": {"b": 0.5}, "derive": {"parameter_sweep": dict(sw, collection="FloatDataCollection")}}],
+               [20.5, 40.5, 60.5]),
+        "src": ([{"processor": "VPairSource", "parameters": {"b": 0.5}, "derive": {"parameter_sweep": dict(sw, collection="FloatDataCollection")}}],
+                [100.5, 200.5, 300.5]),
+        "probe": ([{"processor": "FloatValueDataSource", "parameters": {"value": 2.0}},
+                   {"processor": "VPairProbe", "context_key": "res", "parameters": {"b": 0.5}, "derive": {"parameter_sweep": dict(sw)}}], None),
+    }
+    for kind, (nodes, want) in cases.items():
+        run.evaluations += 1
+        o = run_nodes(nodes, None, {})
+        if o["raised"] is not None:
+            run.violation(f"shadowing:{kind}:raised", f"{nodes[-1]}: raised {o['raised']}", {"kind": kind})
+            continue
+        data, fctx = o["final"]
+        got = list(data[1]) if data[0] == "coll" else fctx.get("res")
+        if want is None:
+            # the probe's own arithmetic is not the point: its three results must differ (a = 10, 20, 30) and b_values is published
+            ok = isinstance(got, list) and len(got) == 3 and len({repr(x) for x in got}) == 3
+        else:
+            ok = got == want
+        if not ok or fctx.get("b_values") != [1.0, 2.0, 3.0]:
+            run.violation(f"shadowing:{kind}", f"variables b = [1, 2, 3], expression a = 10.0 * b, node parameter b = 0.5: elements {got}"
+                          + (f" (expected {want})" if want else " (expected three different results)") + f", b_values {fctx.get('b_values')}", {"kind": kind})
+
+
 def environment_probe(run) -> None:
     """C03 does not quantify over the process environment: whatever SEMANTIVA_* variables the sweep machinery consults
     (observed, not guessed: vharness.envprobe), the element sequence stays the documented one.  The probe pipelines use
@@ -266,6 +301,7 @@ def check(tier: str) -> int:
         run.require_tlc_ok(res3, "Sweep.three.check")
         _replay(run, "Sweep.three.emit")
     text_value_checks(run)
+    shadowing_checks(run)
     environment_probe(run)
     if set(run.extra.get("cases_by_kind", {})) != {"src", "op", "probe"}:
         raise core.MachineryError("vacuity: not all three wrapped kinds were exercised")
